@@ -359,6 +359,49 @@ def _mesh_checks(ck, m, rng, tier, rules):
                         "sum over faces of value times face area (requested rule and order)", inputs, got, want)
 
 
+def _fine_patch_check(ck):
+    """a high-resolution regional patch (cells of 4e-4 degrees, far from lon 0 / lat 0, quads and padded triangles): integrating the
+    constant 1 gives the patch's area - reference: flat fan triangles from the corner chord vectors (exact to ~1e-10 relative at this
+    size) - and integrating a field gives the area-weighted sum"""
+    d = 4e-4
+    for (lon0, lat0) in ((120.0, 45.0), (-73.0, -38.0)):
+        lons = [lon0 + d * i for i in range(4)]
+        lats = [lat0 + d * j for j in range(3)]
+        lon = [lo for la in lats for lo in lons]
+        lat = [la for la in lats for lo in lons]
+        faces = []
+        for j in range(2):
+            for i in range(3):
+                a = j * 4 + i
+                if (i + j) % 2:
+                    faces.append([a, a + 1, a + 5, FILL])
+                    faces.append([a, a + 5, a + 4, FILL])
+                else:
+                    faces.append([a, a + 1, a + 5, a + 4])
+        faces = np.array(faces, dtype=np.int64)
+        lo, la = np.deg2rad(np.array(lon)), np.deg2rad(np.array(lat))
+        P = np.stack([np.cos(la) * np.cos(lo), np.cos(la) * np.sin(lo), np.sin(la)], axis=1)
+        ref = []
+        for row in faces:
+            c = [int(v) for v in row if v != FILL]
+            ref.append(sum(0.5 * np.linalg.norm(np.cross(P[c[t]] - P[c[0]], P[c[t + 1]] - P[c[0]])) for t in range(1, len(c) - 1)))
+        ref = np.array(ref)
+        vals = np.arange(len(faces), dtype=float) + 1.0
+        for rule, order in (("triangular", 4), ("gaussian", 6)):
+            ck.cases += 1
+            inputs = {"mesh": f"fine_patch_4e-4deg@{lon0:g},{lat0:g}", "quadrature_rule": rule, "order": order}
+            try:
+                g = ux.Grid.from_topology(node_lon=np.array(lon), node_lat=np.array(lat), face_node_connectivity=faces, fill_value=FILL)
+                one = float(ux.UxDataArray(np.ones(len(faces)), dims=["n_face"], uxgrid=g, name="one").integrate(rule, order).values)
+                wsum = float(ux.UxDataArray(vals, dims=["n_face"], uxgrid=g, name="v").integrate(rule, order).values)
+            except Exception as e:  # noqa
+                ck.fail(f"raises:fine_patch:{type(e).__name__}", f"raises {type(e).__name__}: {str(e)[:140]}", "sum over faces of value times face area", inputs)
+                continue
+            if not np.isclose(one, ref.sum(), rtol=1e-4, atol=0) or not np.isclose(wsum, float((vals * ref).sum()), rtol=1e-4, atol=0):
+                ck.fail("constant_one_total_area:fine_patch", "on a high-resolution patch integrating 1 (or a field) differs from the area(-weighted sum) of "
+                        "its faces", "integrating the constant 1 gives the grid's total area", inputs, [one, wsum], [float(ref.sum()), float((vals * ref).sum())])
+
+
 def integration(tier, seed):
     rng = random.Random(seed * 7727 + 6)
     ck = _Ck()
@@ -383,6 +426,7 @@ def integration(tier, seed):
         _mesh_checks(ck, m, rng, tier, rules)
         if len(samples) < 3:
             samples.append({"mesh": m["name"], "n_node": m["n_node"], "n_face": m["n_face"], "rules": [list(r) for r in rules[:3]]})
+    _fine_patch_check(ck)
     bound = (f"{len(meshes)} meshes (tetrahedron, square/pentagonal pyramid with n_node == n_face; the 10 triangles on 5 nodes with "
              "n_edge == n_face; meshgen catalogue incl. mixed 3..8-gons, closed and random meshes), all 15 supported rule/order pairs "
              "(triangular 1,4,8,10,12; gaussian 1..10), rank 1..4, dtypes float64/float32/int64/bool(/int32), 4 grid histories "
